@@ -1019,6 +1019,30 @@ func (fr *Frame) modelExternal(callee *ssa.Function, c *ssa.CallCommon, args []V
 	vc := fr.vc
 	q := qualifiedName(callee)
 	switch q {
+	case "gopkg.in/yaml.v3.Unmarshal":
+		// yaml.Unmarshal(in, &x): the decoder is a function of the bytes and of the target type (assumed: yaml.v3 is
+		// deterministic and reads nothing but its input). On error the target may hold anything.
+		mi, ok := c.Args[1].(*ssa.MakeInterface)
+		if !ok {
+			break
+		}
+		pt, ok := mi.X.Type().Underlying().(*types.Pointer)
+		if !ok {
+			break
+		}
+		target := fr.val(mi.X)
+		if target.Loc == nil {
+			break
+		}
+		vc.Assumed["assumed contract: gopkg.in/yaml.v3.Unmarshal is a function of its input bytes and the target type (error and, on success, decoded value)"] = true
+		srt := vc.S.Sort(pt.Elem())
+		en, vn := yamlFuncs(vc, srt)
+		in := vc.term(st, args[0])
+		errT := vc.define("yaml_err", "Err", fmt.Sprintf("(%s %s)", en, in))
+		nv := vc.fresh("yaml_out", srt)
+		vc.fact(implies(eq(errT, "enil"), eq(nv, fmt.Sprintf("(%s %s)", vn, in))))
+		vc.store(st, target.Loc, nv)
+		return Val{T: resT, Term: errT}, true
 	case "fmt.Sprintf", "fmt.Errorf":
 		format, isConst := "", false
 		if k, ok := c.Args[0].(*ssa.Const); ok && k.Value != nil && k.Value.Kind() == constant.String {
